@@ -4,6 +4,7 @@ package props
 import (
 	"encoding/json"
 	"fmt"
+	"go/types"
 	"os"
 	"os/exec"
 	"path/filepath"
@@ -382,6 +383,39 @@ func DumpFuncs(repo, verif string) int {
 					}
 				}
 			}
+		}
+	}
+	// struct types: fields in order with their types; functions: the functions they call (module functions by pinned name,
+	// others as pkg.Name) — used to recognise renamed fields, renamed types and renamed functions
+	for path, p := range c.ByPath {
+		if !strings.HasPrefix(path, core.ModPath) {
+			continue
+		}
+		scope := p.Types.Scope()
+		for _, n := range scope.Names() {
+			tn, ok := scope.Lookup(n).(*types.TypeName)
+			if !ok {
+				continue
+			}
+			st, ok := tn.Type().Underlying().(*types.Struct)
+			if !ok {
+				continue
+			}
+			var fs []string
+			for i := 0; i < st.NumFields(); i++ {
+				fs = append(fs, st.Field(i).Name()+":"+types.TypeString(st.Field(i).Type(), func(q *types.Package) string { return q.Path() }))
+			}
+			names = append(names, "FIELDS "+path+"."+n+"\t"+strings.Join(fs, ";"))
+		}
+		sp := c.Prog.Package(p.Types)
+		if sp == nil {
+			continue
+		}
+		for _, fn := range pkgFuncs(sp) {
+			if fn.Parent() != nil || fn.Synthetic != "" {
+				continue
+			}
+			names = append(names, "CALLEES "+fn.String()+"\t"+strings.Join(an.CalleeNames(fn), ","))
 		}
 	}
 	sort.Strings(names)
